@@ -332,6 +332,7 @@ impl Ctx {
     /// Parse the common CLI: `<bin> <property> [--tier quick|thorough] [--replay path] [--strict]`
     pub fn from_args(level_of: impl Fn(&str) -> &'static str) -> Ctx {
         install_panic_hook();
+        install_log_sink();
         let args: Vec<String> = std::env::args().collect();
         if args.len() < 2 {
             eprintln!("usage: {} <property> [--tier quick|thorough] [--replay <path>]", args[0]);
@@ -829,4 +830,47 @@ pub fn sample_from<S: Strategy>(s: &S, runner: &mut TestRunner) -> S::Value {
 pub fn pick_index(byte: u8, len: usize) -> usize {
     debug_assert!(len > 0);
     (byte as usize * len) >> 8
+}
+
+
+// ------------------------------------------------------------------ log sink
+/// The code under test logs through `tracing`; without a subscriber the arguments of its log statements are never evaluated,
+/// with one (as in the real client and server binaries) they are. This sink enables ERROR/WARN/INFO events - the levels a
+/// production deployment runs at - and formats every field, so that a log statement that panics or misbehaves on unusual
+/// data is executed as it would be in production. DEBUG/TRACE stay off (they dominate the hot paths).
+pub fn install_log_sink() {
+    use tracing::{span, Event, Metadata, Subscriber};
+    struct Sink;
+    struct Fmt(usize);
+    impl tracing::field::Visit for Fmt {
+        fn record_debug(&mut self, _field: &tracing::field::Field, value: &dyn std::fmt::Debug) {
+            self.0 += format!("{value:?}").len();
+        }
+    }
+    impl Subscriber for Sink {
+        fn enabled(&self, m: &Metadata<'_>) -> bool {
+            *m.level() <= tracing::Level::INFO
+        }
+        fn max_level_hint(&self) -> Option<tracing::level_filters::LevelFilter> {
+            Some(tracing::level_filters::LevelFilter::INFO)
+        }
+        fn new_span(&self, attrs: &span::Attributes<'_>) -> span::Id {
+            let mut f = Fmt(0);
+            attrs.record(&mut f);
+            span::Id::from_u64(1)
+        }
+        fn record(&self, _span: &span::Id, values: &span::Record<'_>) {
+            let mut f = Fmt(0);
+            values.record(&mut f);
+        }
+        fn record_follows_from(&self, _span: &span::Id, _follows: &span::Id) {}
+        fn event(&self, event: &Event<'_>) {
+            let mut f = Fmt(0);
+            event.record(&mut f);
+            std::hint::black_box(f.0);
+        }
+        fn enter(&self, _span: &span::Id) {}
+        fn exit(&self, _span: &span::Id) {}
+    }
+    let _ = tracing::subscriber::set_global_default(Sink);
 }
